@@ -122,7 +122,7 @@ def ensure_facts(config="default", repo=None, force=False, target_dir=None):
             json.dump({"tree_hash": th, "config": config, "extract_s": round(time.time() - t0, 2)}, fh)
         shutil.rmtree(d, ignore_errors=True)
         os.rename(tmp, d)
-        _gc(os.path.join(CACHE, "facts"), keep=6)
+        _gc(os.path.join(CACHE, "facts"), keep=48)
         return d, th
     finally:
         fcntl.flock(lock, fcntl.LOCK_UN)
